@@ -1206,3 +1206,203 @@ Lemma cleanup_preserves_dv_lemma fi ode dvs fixed dists l :
 Proof.
   intros Hg r H1 H2 dv Hd. apply cleanup_preserves_lemma; auto. apply inlined_not_dv. exact Hd.
 Qed.
+
+(* ================= mu_reference_model ================= *)
+Section Mu.
+  Variable fi : finterp.
+  Variable ode : id -> list (option Q) -> option Q.
+  Variable etas : list (id * id).
+  Variable table : list (nat * (expr * expr)).
+  Variable sel : list nat.
+  Variable M : list id.                     (* the inserted mu symbols *)
+
+  Definition agree_off (r r' : env) : Prop := forall x, ~ In x M -> r x = r' x.
+
+  (* sympy's answer solves the equation at environment r: new_def[mu := value of mu_expr] = old_def, wherever
+     mu_expr has a value *)
+  Definition sol_at (mu : id) (m new old : expr) (r : env) : Prop :=
+    forall v, eval r fi m = Some v -> eval (upd r mu (Some v)) fi new = eval r fi old.
+
+  (* the hypotheses on the rewrites of the walk over l starting at index i *)
+  Fixpoint mu_sol_ok (l : list stm) (i : nat) : Prop :=
+    match l with
+    | [] => True
+    | st :: tl =>
+        match mu_action etas table sel i st, st with
+        | MRewrite mu m p new, SAssign _ old => In mu M /\ (forall r0, sol_at mu m new old r0)
+        | _, _ => True
+        end /\ mu_sol_ok tl (S i)
+    end.
+
+  (* every inserted `mu = mu_expr` evaluates to a defined value in the run of the new program from r' *)
+  Fixpoint mu_run_ok (l : list stm) (i : nat) (r' : env) : Prop :=
+    match l with
+    | [] => True
+    | st :: tl =>
+        match mu_action etas table sel i st with
+        | MRewrite mu m p new =>
+            eval r' fi m <> None /\
+            mu_run_ok tl (S i) (sexec1 fi ode (sexec1 fi ode r' (SAssign mu m)) (SAssign p new))
+        | _ => mu_run_ok tl (S i) (sexec1 fi ode r' st)
+        end
+    end.
+
+  Lemma agree_keep r r' st :
+    agree_off r r' -> (forall x, In x (ssyms st) -> ~ In x M) ->
+    agree_off (sexec1 fi ode r st) (sexec1 fi ode r' st).
+  Proof.
+    intros Ha Hs x Hx. destruct (in_dec Pos.eq_dec x (sdefs st)) as [Hin|Hn].
+    - apply sexec1_defs; [|exact Hin]. intros y Hy. apply Ha. apply Hs. unfold ssyms. apply in_or_app. right. exact Hy.
+    - rewrite !sexec1_other by exact Hn. apply Ha. exact Hx.
+  Qed.
+
+  Lemma mu_action_rewrite_shape i st mu m p new :
+    mu_action etas table sel i st = MRewrite mu m p new -> exists old, st = SAssign p old.
+  Proof.
+    unfold mu_action. destruct (memn i sel); [|discriminate]. destruct st as [p' old|a b]; [|discriminate].
+    destruct (eta_of etas old) as [[e mu']|]; [|discriminate]. destruct (memp mu' (free_syms old)); [discriminate|].
+    destruct (find _ table) as [[k [m' new']]|]; [|discriminate]. intros H. injection H as _ _ <- _. eauto.
+  Qed.
+
+  Lemma mu_walk_lemma : forall l i out r r',
+    mu_walk etas table sel l i = Some out ->
+    agree_off r r' ->
+    (forall x, In x (all_ssyms l) -> ~ In x M) ->
+    mu_sol_ok l i -> mu_run_ok l i r' ->
+    agree_off (sexec fi ode r l) (sexec fi ode r' out).
+  Proof.
+    induction l as [|st l IH]; intros i out r r' Hw Ha Hfresh Hsol Hrun.
+    - cbn [mu_walk] in Hw. injection Hw as <-. exact Ha.
+    - cbn [mu_walk] in Hw. destruct (mu_walk etas table sel l (S i)) as [b|] eqn:Eb; [|discriminate].
+      cbn [mu_sol_ok mu_run_ok] in Hsol, Hrun. destruct Hsol as [Hs1 Hsol].
+      assert (Hfst : forall x, In x (ssyms st) -> ~ In x M).
+      { intros x Hx. apply Hfresh. unfold all_ssyms. cbn [flat_map]. apply in_or_app. left. exact Hx. }
+      assert (Hfl : forall x, In x (all_ssyms l) -> ~ In x M).
+      { intros x Hx. apply Hfresh. unfold all_ssyms. cbn [flat_map]. apply in_or_app. right. exact Hx. }
+      destruct (mu_action etas table sel i st) as [|mu m p new|] eqn:Eact; [| |discriminate].
+      + injection Hw as <-. cbn [Model.sexec]. apply (IH (S i) b); auto. apply agree_keep; assumption.
+      + injection Hw as <-. destruct (mu_action_rewrite_shape _ _ _ _ _ _ Eact) as [old ->].
+        destruct Hs1 as [HmuM Hsolr]. destruct Hrun as [Hdef Hrun].
+        cbn [Model.sexec]. apply (IH (S i) b); auto.
+        (* one original statement against the two new ones *)
+        destruct (eval r' fi m) as [v|] eqn:Em; [|congruence]. clear Hdef.
+        assert (Hold : eval r' fi old = eval r fi old).
+        { apply eval_ext. intros y Hy. symmetry. apply Ha. apply Hfst. unfold ssyms. cbn [sdefs srhs].
+          right. exact Hy. }
+        assert (HpM : ~ In p M) by (apply Hfst; left; reflexivity).
+        intros x Hx. cbn [Model.sexec1]. rewrite Em. rewrite (Hsolr r' v Em), Hold.
+        unfold upd. destruct (Pos.eqb x p) eqn:Exp; [reflexivity|].
+        destruct (Pos.eqb x mu) eqn:Exm; [apply Pos.eqb_eq in Exm; subst; contradiction|]. apply Ha. exact Hx.
+  Qed.
+End Mu.
+
+(* the inserted mus of the walk are in [inserted_mus] *)
+Lemma mu_sol_ok_inserted fi etas table sel : forall l i,
+  (forall j st mu m p new old, nth_error l j = Some st -> mu_action etas table sel (i + j) st = MRewrite mu m p new ->
+      st = SAssign p old -> forall r0, sol_at fi mu m new old r0) ->
+  mu_sol_ok fi etas table sel (inserted_mus etas table sel l i) l i.
+Proof.
+  induction l as [|st l IH]; intros i H; [exact I|].
+  cbn [mu_sol_ok inserted_mus]. split.
+  - destruct (mu_action etas table sel i st) as [|mu m p new|] eqn:Ea; try exact I.
+    destruct st as [p' old|a b]; [|exact I]. split; [left; reflexivity|].
+    apply (H 0 (SAssign p' old) mu m p new old); [reflexivity | rewrite Nat.add_0_r; exact Ea |].
+    destruct (mu_action_rewrite_shape _ _ _ _ _ _ _ _ _ Ea) as [old' E]. injection E as -> _. reflexivity.
+  - assert (G : forall M M', (forall x, In x M -> In x M') -> forall l0 i0,
+                 mu_sol_ok fi etas table sel M l0 i0 -> mu_sol_ok fi etas table sel M' l0 i0).
+    { intros M0 M' Hsub. induction l0 as [|st0 l0 IH0]; intros i0 H0; [exact I|].
+      cbn [mu_sol_ok] in *. destruct H0 as [H1 H2]. split; [|apply IH0; exact H2].
+      destruct (mu_action etas table sel i0 st0); try exact I. destruct st0; [|exact I].
+      destruct H1 as [H1 H3]. split; [apply Hsub; exact H1 | exact H3]. }
+    apply (G (inserted_mus etas table sel l (S i))).
+    + intros x Hx. destruct (mu_action etas table sel i st); try exact Hx. right. exact Hx.
+    + apply IH. intros j st' mu m p new old Hn Ha. apply (H (S j) st' mu m p new old); [exact Hn|].
+      rewrite <- Nat.add_succ_comm. exact Ha.
+Qed.
+
+Lemma mu_reference_preserves_lemma fi ode etas table l out :
+  mu_reference etas table l = Some out ->
+  let sel := find_eta_assignments (map fst etas) l in
+  g_mu_fresh etas table sel l = true ->
+  (forall j p old mu m new, nth_error l j = Some (SAssign p old) ->
+      mu_action etas table sel j (SAssign p old) = MRewrite mu m p new -> forall r0, sol_at fi mu m new old r0) ->
+  forall r, mu_run_ok fi ode etas table sel l 0 r ->
+  forall x, ~ In x (inserted_mus etas table sel l 0) -> sexec fi ode r out x = sexec fi ode r l x.
+Proof.
+  intros Hw sel Hf Hsol r Hrun x Hx. symmetry.
+  apply (mu_walk_lemma fi ode etas table sel (inserted_mus etas table sel l 0) l 0 out r r); auto.
+  - intros y _. reflexivity.
+  - unfold g_mu_fresh in Hf. apply negb_true_iff in Hf. rewrite interp_empty in Hf.
+    intros y Hy Hm. exact (Hf y Hm Hy).
+  - apply mu_sol_ok_inserted. intros j st mu m p new old Hn Ha ->. cbn [Nat.add] in Ha.
+    apply (Hsol j p old mu m new Hn Ha).
+Qed.
+
+(* ---- the two standard forms solve the equation ---- *)
+Section Forms.
+  Variable fi : finterp.
+
+  (* additive: P = T + eta  ->  mu = T ; P = mu + eta   (every interpretation) *)
+  Lemma additive_sol T eta mu r : mu <> eta ->
+    sol_at fi mu T (Add (Sym mu) (Sym eta)) (Add T (Sym eta)) r.
+  Proof.
+    intros Hne v Hv. cbn [eval]. unfold upd. rewrite Pos.eqb_refl.
+    assert (E : Pos.eqb eta mu = false) by (apply Pos.eqb_neq; congruence). rewrite E, Hv. reflexivity.
+  Qed.
+
+  (* exponential: P = T * exp(eta)  ->  mu = log(T) ; P = exp(mu + eta), for interpretations in which
+     exp(log t + e) = t * exp(e) wherever log t is defined *)
+  Definition exp_log_law : Prop :=
+    forall t l e, fi1 fi F_LOG t = Some l ->
+      fi1 fi F_EXP (Qred (l + e)) = obind (fi1 fi F_EXP e) (fun x => Some (Qred (t * x))).
+
+  Lemma exponential_sol T eta mu r : mu <> eta -> exp_log_law ->
+    sol_at fi mu (Fn1 F_LOG T) (Fn1 F_EXP (Add (Sym mu) (Sym eta))) (Mul T (Fn1 F_EXP (Sym eta))) r.
+  Proof.
+    intros Hne Hlaw v Hv. cbn [eval] in *. unfold upd. rewrite Pos.eqb_refl.
+    assert (E : Pos.eqb eta mu = false) by (apply Pos.eqb_neq; congruence). rewrite E.
+    destruct (eval r fi T) as [t|]; [|discriminate]. cbn [obind] in *.
+    destruct (r eta) as [e|]; cbn [obind]; [|reflexivity].
+    rewrite (Hlaw t v e Hv). destruct (fi1 fi F_EXP e); reflexivity.
+  Qed.
+End Forms.
+
+
+(* ================= renaming to fresh, pairwise different names (greekify_model) ================= *)
+Lemma NoDup_snd_inj (d : list (id * id)) x y t :
+  NoDup (map snd d) -> In (x, t) d -> In (y, t) d -> x = y.
+Proof.
+  induction d as [|[k v] d IH]; intros Hn Hx Hy; [destruct Hx|].
+  cbn [map snd] in Hn. inversion Hn as [|? ? Hnotin Hn']; subst.
+  destruct Hx as [Hx|Hx], Hy as [Hy|Hy].
+  - congruence.
+  - inversion Hx; subst. exfalso. apply Hnotin. apply in_map_iff. exists (y, t). auto.
+  - inversion Hy; subst. exfalso. apply Hnotin. apply in_map_iff. exists (x, t). auto.
+  - apply IH; assumption.
+Qed.
+
+(* targets pairwise different and not among the names S of the model  =>  the renaming is injective on S *)
+Lemma ren_fresh_injective (d : list (id * id)) (S : list id) :
+  NoDup (map snd d) -> (forall t, In t (map snd d) -> ~ In t S) ->
+  forall x y, In x S -> In y S -> ren d x = ren d y -> x = y.
+Proof.
+  intros Hn Hf x y Hx Hy. unfold ren.
+  destruct (alookup d x) as [t|] eqn:Ex; destruct (alookup d y) as [t'|] eqn:Ey; intros E.
+  - subst t'. apply alookup_In in Ex. apply alookup_In in Ey. eapply NoDup_snd_inj; eauto.
+  - exfalso. apply (Hf t); [|rewrite E; exact Hy]. apply in_map_iff. exists (x, t). split; [reflexivity|].
+    apply alookup_In. exact Ex.
+  - exfalso. apply (Hf t'); [|rewrite <- E; exact Hx]. apply in_map_iff. exists (y, t'). split; [reflexivity|].
+    apply alookup_In. exact Ey.
+  - exact E.
+Qed.
+
+Lemma rename_fresh_preserves_lemma fi ode (d : list (id * id)) (S : list id) (l : list stm) :
+  NoDup (map snd d) -> (forall t, In t (map snd d) -> ~ In t S) ->
+  (forall x, In x (all_ssyms l) -> In x S) ->
+  amounts_unrenamed d l = true ->
+  forall r r', (forall x, In x S -> r' (ren d x) = r x) ->
+  forall x, In x S -> sexec fi ode r' (rename d l) (ren d x) = sexec fi ode r l x.
+Proof.
+  intros Hn Hf Hs Ha r r' Hr x Hx.
+  apply (rename_lemma fi ode d S); auto. apply ren_fresh_injective; assumption.
+Qed.
